@@ -22,7 +22,7 @@ func init() {
 		[]string{"gRPC writes only through the net.Conn returned by the TransportCredentials handshake"},
 		runC05)
 	register("C11",
-		"EXCL: in Server.Accept and Client.Dial every path to a successful return on which a previous connection existed passes a receive on that connection's Done() channel (Accept: or returns io.EOF on quit); Done() returns the quit field, which the once-guarded Close closes on every path. SIDFRESH: both functions call connData.SID() on every invocation after that wait and before constructing; the sid handed to NewServerConn/NewClientConn is that fresh value (directly or through a dominating store to the sid field); on the leg 'sid changed and a previous connection exists' the old connection is stopped/closed and forgotten, so the New constructor (not Refresh) runs - Refresh only under 'previous connection exists'; ConnData.SID and HandshakePattern branch on the same remoteKey != nil predicate and SetRemote stores the key; DoHandshake publishes the remote key for version >= 2 (C04 PUBLISH, re-checked). FRESH: RefreshServerConn/RefreshClientConn return a newly allocated connection with a newly allocated connKit, neither filled by a whole-struct copy of the closed connection; quit is a new channel, gbnConn the result of a new gbn.New*Conn, connKit.impl the new connection, and closeOnce / recvBuffer / read and write deadlines stay at their zero value (no unread bytes, closed channel or spent Once of the closed connection reach the connection handed out next). Not decided: behaviour over sequences of connect/close/relay-failure events; that a client knowing only the passphrase is rejected after pairing (follows cryptographically from the KK pattern, C03).",
+		"EXCL: in Server.Accept and Client.Dial every path to a successful return on which a previous connection existed passes a receive on that connection's Done() channel (Accept: or returns io.EOF on quit); Done() returns the quit field, which the once-guarded Close closes on every path and only after the gbn connection and both relay streams have been released. SIDFRESH: both functions call connData.SID() on every invocation after that wait and before constructing; the sid handed to NewServerConn/NewClientConn is that fresh value (directly or through a dominating store to the sid field); on the leg 'sid changed and a previous connection exists' the old connection is stopped/closed and forgotten on every path from there on (no return and no Refresh in between), so the New constructor (not Refresh) runs - Refresh only under 'previous connection exists'; ConnData.SID and HandshakePattern branch on the same remoteKey != nil predicate and SetRemote stores the key; DoHandshake publishes the remote key for version >= 2 (C04 PUBLISH, re-checked). FRESH: RefreshServerConn/RefreshClientConn return a newly allocated connection with a newly allocated connKit, neither filled by a whole-struct copy of the closed connection; quit is a new channel, gbnConn the result of a new gbn.New*Conn, connKit.impl the new connection, and closeOnce / recvBuffer / read and write deadlines stay at their zero value (no unread bytes, closed channel or spent Once of the closed connection reach the connection handed out next). Not decided: behaviour over sequences of connect/close/relay-failure events; that a client knowing only the passphrase is rejected after pairing (follows cryptographically from the KK pattern, C03).",
 		nil,
 		runC11)
 	register("C17",
@@ -512,6 +512,29 @@ func ruleAcceptDial(c *Checker) {
 					}
 				}
 				c.decide(uncond, "EXCL", tn+".Close|closes quit on every path", body.Pos(), "close(quit) unconditionally in the once body", "Close does not close quit on every path: Accept/Dial would wait forever")
+				// Done() must not fire before the connection has released what it holds: nothing that
+				// closes the gbn connection or a relay stream/socket may come after close(quit)
+				releases := findCalls(body, func(ci ssa.CallInstruction) bool {
+					cc := ci.Common()
+					name := ""
+					if cc.IsInvoke() {
+						name = cc.Method.Name()
+					} else if sc := cc.StaticCallee(); sc != nil {
+						name = sc.Name()
+					}
+					return name == "Close" || name == "CloseSend" || name == "CloseReceive"
+				})
+				late := ""
+				for _, q := range cq {
+					for _, r := range releases {
+						if pathExists(q, r, nil) {
+							late = calleeLabel(r.Common()) + " at " + w.pos(instrPos(r))
+						}
+					}
+				}
+				c.decide(late == "" && len(releases) >= 3, "EXCL", tn+".Close|quit is closed after the gbn connection and both streams are released", body.Pos(),
+					fmt.Sprintf("%d release calls, none reachable after close(quit)", len(releases)),
+					"Done() fires before the connection is fully released ("+late+" runs after close(quit)): Accept/Dial hand out the next connection while the old one still holds its relay streams")
 			}
 		}
 
@@ -600,8 +623,21 @@ func ruleAcceptDial(c *Checker) {
 			}
 			for _, st := range w.Stores(fConn) {
 				if st.Parent() == fn && isNilConst(st.Val) && instrDominates(ci, st) && instrDominates(st, ctor0(ctor)) == false {
-					// the nil store must be on every path from the closer to the constructor decision
-					okTear = true
+					// the nil store must be on every path from the closer on: no return (e.g. on an error of
+					// the closer, which is not retryable) and no Refresh before the old connection is forgotten
+					isNil := func(in ssa.Instruction) bool { return in == ssa.Instruction(st) }
+					if pathToReturn(ci, func(*ssa.Return) bool { return true }, isNil) != nil {
+						continue
+					}
+					skipped := false
+					for _, rf := range refresh {
+						if pathExists(ci, rf, isNil) {
+							skipped = true
+						}
+					}
+					if !skipped {
+						okTear = true
+					}
 				}
 			}
 		}
@@ -808,7 +844,7 @@ func ruleC11Rest(c *Checker) {
 		}
 		c.decide(okk, "SIDFRESH", "DoHandshake|SetRemote for version >= 2", dh.Pos(), "both parties publish the remote static key when the negotiated version is >= 2", "the remote key is not published exactly for version >= 2: the two sides move to different rendezvous points")
 	}
-	c.floor("EXCL", 6)
+	c.floor("EXCL", 8)
 	c.floor("SIDFRESH", 12)
 	c.floor("FRESH", 18)
 }
